@@ -470,6 +470,156 @@ def parsePlume (ctx : Ctx R) (c : Cur) (tags : List String) : PM R (PlumeFeature
             semiMajor := sma, ecc := ecc, rot := rot,
             models := { temps := temps, vels := vels, comps := comps, grains := grains } }, tags)
 
+/-- `[a]` or `[a, b]` → `(a, a)` or `(a, b)` (parameters.cc:1165-1215) -/
+def jpair (j : Json) : Except Err (P2 R) := do
+  let a ← jarr j
+  match a[0]?, a[1]? with
+  | some x, none => do let v : R ← jnum x; return ⟨v, v⟩
+  | some x, some y => return ⟨← jnum x, ← jnum y⟩
+  | _, _ => .error .internal
+
+/-- the model list of one kind for a segment: its own, else the nearest enclosing one (section entry, feature), else none.
+Mirrors the search-back / JSON-copy of `Parameters::get_vector<Segment>`: the inherited JSON is parsed under the segment's schema. -/
+def resolveModels (seg : Cur) (ancestors : List Json) (key : String) : Except Err (List (String × Cur)) :=
+  let own := seg.val? key
+  let src : Option Json := match own with
+    | some v => some v
+    | none => (ancestors.findSome? (fun a => (a.getObjVal? key).toOption))
+  match src with
+  | none => .ok []
+  | some v => do
+    let alts ← schemaAt seg.schema [key, "items", "oneOf"]
+    (← jarr v).toList.mapM (pluginCursor alts)
+
+def parseLineTemp (ctx : Ctx R) (isFault : Bool) (model : String) (c : Cur) : Except Err (LineTemp R) := do
+  let mn : R ← c.getNum (if isFault then "min distance fault center" else "min distance slab top")
+  let mx : R ← c.getNum (if isFault then "max distance fault center" else "max distance slab top")
+  let op ← c.getOp
+  match model with
+  | "uniform" => return .uniform mn mx op (← c.getNum "temperature")
+  | "linear" =>
+    if isFault then return .linear mn mx op (← c.getNum "center temperature") (← c.getNum "side temperature")
+    else return .linear mn mx op (← c.getNum "top temperature") (← c.getNum "bottom temperature")
+  | "adiabatic" => do
+    let tp : R ← c.getNum "potential mantle temperature"
+    let al : R ← c.getNum "thermal expansion coefficient"
+    let cp : R ← c.getNum "specific heat"
+    return .adiabatic mn mx op (if tp < 0 then ctx.potentialT else tp) (if al < 0 then ctx.alpha else al) (if cp < 0 then ctx.cp else cp)
+  | _ => .error .unsupported
+
+def parseLineComp (isFault : Bool) (model : String) (c : Cur) : Except Err (LineComp R) := do
+  match model with
+  | "uniform" => do
+    let mn : R ← c.getNum (if isFault then "min distance fault center" else "min distance slab top")
+    let mx : R ← c.getNum (if isFault then "max distance fault center" else "max distance slab top")
+    let comps ← c.getNatVec "compositions"
+    let fr ← c.getNumVec "fractions"
+    let op ← c.getOp
+    if comps.length != fr.length then .error .length
+    return .uniform mn mx op comps fr
+  | "smooth" =>
+    if isFault then do
+      let mn : R ← c.getNum "min distance fault center"
+      let side : R ← c.getNum "side distance fault center"
+      let op ← c.getOp
+      let cf ← c.getNumVec "center fractions"
+      let sf ← c.getNumVec "side fractions"
+      let comps ← c.getNatVec "compositions"
+      return .smooth mn mn side op comps cf sf
+    else do
+      let mn : R ← c.getNum "min distance slab top"
+      let mx : R ← c.getNum "max distance slab top"
+      let op ← c.getOp
+      let tf ← c.getNumVec "top fractions"
+      let bf ← c.getNumVec "bottom fractions"
+      let comps ← c.getNatVec "compositions"
+      return .smooth mn mx (fabs (mx - mn)) op comps tf bf
+  | _ => .error .unsupported
+
+def parseLineVel (isFault : Bool) (model : String) (c : Cur) : Except Err (LineVel R) := do
+  match model with
+  | "uniform raw" => do
+    let mn : R ← c.getNum (if isFault then "min distance fault center" else "min distance slab top")
+    let mx : R ← c.getNum (if isFault then "max distance fault center" else "max distance slab top")
+    let op ← c.getOp
+    let v ← c.getNumVec "velocity"
+    return .uniformRaw mn mx op ⟨← idx v 0, ← idx v 1, ← idx v 2⟩
+  | _ => .error .unsupported
+
+def parseLineGrains (isFault : Bool) (model : String) (c : Cur) : Except Err (LineGrains R) := do
+  match model with
+  | "uniform" => do
+    let mn : R ← c.getNum (if isFault then "min distance fault center" else "min distance slab top")
+    let mx : R ← c.getNum (if isFault then "max distance fault center" else "max distance slab top")
+    let comps ← c.getNatVec "compositions"
+    let mats ← getRotations c "Euler angles z-x-z" "rotation matrices"
+    let _ ← c.getStr "orientation operation"
+    let sizes ← c.getNumVec "grain sizes"
+    if comps.length != mats.length then .error .length
+    if comps.length != sizes.length then .error .length
+    return .uniform mn mx comps mats sizes
+  | _ => .error .unsupported
+
+/-- one entry of a `segments` array -/
+def parseSegment (ctx : Ctx R) (isFault : Bool) (seg : Cur) (ancestors : List Json) : Except Err (Segment R) := do
+  let len : R ← (match seg.val? "length" with
+    | some v => jnum v
+    | none => .error .internal)
+  let th : P2 R ← (match seg.val? "thickness" with
+    | some v => jpair v
+    | none => .error .other)
+  let tt : P2 R ← (match seg.val? "top truncation" with
+    | some v => jpair v
+    | none => .ok ⟨0, 0⟩)
+  let ang : P2 R ← (match seg.val? "angle" with
+    | some v => jpair v
+    | none => .error .other)
+  let temps ← (← resolveModels seg ancestors "temperature models").mapM (fun (m, c) => parseLineTemp ctx isFault m c)
+  let comps ← (← resolveModels seg ancestors "composition models").mapM (fun (m, c) => parseLineComp isFault m c)
+  let grains ← (← resolveModels seg ancestors "grains models").mapM (fun (m, c) => parseLineGrains isFault m c)
+  let vels ← (← resolveModels seg ancestors "velocity models").mapM (fun (m, c) => parseLineVel isFault m c)
+  return { length := len, thickness := th, topTruncation := tt, angle := ang, temps := temps, comps := comps, grains := grains, vels := vels }
+
+/-- a `segments` array found in `obj` (feature or section entry); `segSchema`: the `properties` of one segment -/
+def parseSegments (ctx : Ctx R) (isFault : Bool) (obj : Json) (segSchema : Json) (ancestors : List Json) : Except Err (List (Segment R)) :=
+  match (obj.getObjVal? "segments").toOption with
+  | none => .error .other
+  | some v => do (← jarr v).toList.mapM (fun sj => parseSegment ctx isFault ⟨sj, segSchema⟩ ancestors)
+
+def parseLine (ctx : Ctx R) (isFault : Bool) (c : Cur) (tags : List String) (cull : Bool) : Except Err (LineFeature R × List String) := do
+  let sph := ctx.coord.spherical
+  let name ← c.getStr "name"
+  let tag ← c.getStr "tag"
+  let (tags, ti) := addTag tags (if tag == "" then (if isFault then "fault" else "subducting plate") else tag)
+  let coords ← getCoordinates c sph
+  let bz ← Bezier.build coords
+  let minD : R ← c.getNum "min depth"
+  let maxD : R ← c.getNum "max depth"
+  let dip : P2 R ← (match c.val? "dip point" with
+    | some v => jpoint2 v
+    | none => .error .other)
+  let dip : P2 R := if sph then ⟨dip.x * (Scalar.pi / 180.0), dip.y * (Scalar.pi / 180.0)⟩ else dip
+  let segSchema ← schemaAt c.schema ["segments", "items", "properties"]
+  let defaultSegs ← parseSegments ctx isFault c.obj segSchema [c.obj]
+  let n := coords.length
+  let init : List (List (Segment R)) := List.replicate n defaultSegs
+  let secs ← (match c.val? "sections" with
+    | none => .ok init
+    | some v => do
+      let secSegSchema ← schemaAt c.schema ["sections", "items", "properties", "segments", "items", "properties"]
+      let secProps ← schemaAt c.schema ["sections", "items", "properties"]
+      (← jarr v).toList.foldlM (fun (acc : List (List (Segment R))) sj => do
+        let sc : Cur := ⟨sj, secProps⟩
+        let k ← (match sc.val? "coordinate" with
+          | some kv => jnat kv
+          | none => do jnat (← schemaAt secProps ["coordinate", "default value"]))
+        if k ≥ n then .error .other
+        let segs ← parseSegments ctx isFault sj secSegSchema [sj, c.obj]
+        if segs.length != defaultSegs.length then .error .length
+        return acc.set k segs) init)
+  return ({ name := name, tag := ti, isFault := isFault, coords := coords, reference := dip, minDepth := minD, maxDepth := maxD,
+            sections := secs, bezier := bz, cull := cull }, tags)
+
 /-- result of parsing: the world, the tag table, the seed override (`random number seed ≥ 0`) -/
 structure Parsed (R : Type) where
   world : World R
@@ -477,7 +627,7 @@ structure Parsed (R : Type) where
   seed : Option Nat
 
 /-- `World::parse_entries`.  `decl`: the declarations document; `version`: `Version::MAJOR.MINOR`. -/
-def parseWorld (decl : Json) (version : String) (doc : Json) : PM R (Parsed R) := do
+def parseWorld (decl : Json) (version : String) (doc : Json) (cull : Bool := true) : PM R (Parsed R) := do
   let props ← pmLift (schemaAt decl ["properties"])
   let c : Cur := ⟨doc, props⟩
   let v ← pmLift (c.getStr "version")
@@ -543,6 +693,12 @@ def parseWorld (decl : Json) (version : String) (doc : Json) : PM R (Parsed R) :
     | "plume" => do
       let (f, tags) ← parsePlume ctx cc acc.2
       return (acc.1 ++ [Feature.plume f], tags)
+    | "subducting plate" => do
+      let (f, tags) ← pmLift (parseLine ctx false cc acc.2 cull)
+      return (acc.1 ++ [Feature.line f], tags)
+    | "fault" => do
+      let (f, tags) ← pmLift (parseLine ctx true cc acc.2 cull)
+      return (acc.1 ++ [Feature.line f], tags)
     | _ => pmErr .unsupported) (([] : List (Feature R)), ([] : List String))
   return { world := { ctx := ctx, cross := cross, features := features }, tags := tags,
            seed := if seed ≥ 0 then some seed.toNat else none }
